@@ -9,58 +9,7 @@ from sa.check import ALL, analyse
 from sa.core import Repo
 
 
-class Renamer(ast.NodeTransformer):
-    def __init__(self):
-        self.stack = []
-
-    def _locals_of(self, fn):
-        params = {a.arg for a in fn.args.posonlyargs + fn.args.args + fn.args.kwonlyargs}
-        if fn.args.vararg: params.add(fn.args.vararg.arg)
-        if fn.args.kwarg: params.add(fn.args.kwarg.arg)
-        assigned, declared = set(), set()
-        for n in ast.walk(fn):
-            if n is not fn and isinstance(n, (ast.FunctionDef, ast.AsyncFunctionDef, ast.Lambda)):
-                # a name that is a parameter of a nested lambda / def shadows the local there: leave it alone
-                aa = n.args
-                declared |= {a.arg for a in aa.posonlyargs + aa.args + aa.kwonlyargs}
-                if aa.vararg: declared.add(aa.vararg.arg)
-                if aa.kwarg: declared.add(aa.kwarg.arg)
-            if n is not fn and isinstance(n, (ast.FunctionDef, ast.AsyncFunctionDef, ast.ClassDef)):
-                declared.add(n.name)
-            if isinstance(n, ast.Name) and isinstance(n.ctx, (ast.Store, ast.Del)):
-                assigned.add(n.id)
-            if isinstance(n, (ast.Global, ast.Nonlocal)):
-                declared |= set(n.names)
-            if isinstance(n, ast.ExceptHandler) and n.name:
-                declared.add(n.name)
-            if isinstance(n, (ast.Import, ast.ImportFrom)):
-                for a in n.names:
-                    declared.add(a.asname or a.name.split(".")[0])
-        return {x for x in assigned if x not in params and x not in declared and x != "_" and not x.startswith("__")}
-
-    def visit_FunctionDef(self, node):
-        loc = self._locals_of(node)
-        # nested functions see the enclosing renames as well
-        self.stack.append(loc)
-        self.generic_visit(node)
-        self.stack.pop()
-        return node
-    visit_AsyncFunctionDef = visit_FunctionDef
-
-    def visit_Name(self, node):
-        for loc in reversed(self.stack):
-            if node.id in loc:
-                return ast.copy_location(ast.Name(id=node.id + "_rn", ctx=node.ctx), node)
-        return node
-
-
-def renamed(src):
-    tree = ast.parse(src)
-    tree = Renamer().visit(tree)
-    ast.fix_missing_locations(tree)
-    out = ast.unparse(tree)
-    compile(out, "<renamed>", "exec")
-    return out
+from sa.selftest.rename import renamed  # noqa: E402
 
 
 def main():
